@@ -625,6 +625,36 @@ func detectScanAlias(c *Ctx, funcs []*ssa.Function) (sources []*ssa.Call, hits [
 				}
 			}
 			follow(call)
+			// stale views: a view (or a sub-slice of it) used after the buffer moved on
+			isScanner := strings.Contains(qname(call.Call.StaticCallee()), "Scanner")
+			var advances []ssa.Instruction
+			instrs(f, func(in2 ssa.Instruction) {
+				if ci, ok := in2.(ssa.CallInstruction); ok && in2 != ssa.Instruction(call) && advancesBuffer(c, ci, isScanner, 0) {
+					advances = append(advances, in2)
+				}
+			})
+			reported := map[ssa.Instruction]bool{}
+			for v := range seen {
+				refs := v.Referrers()
+				if refs == nil {
+					continue
+				}
+				for _, use := range *refs {
+					if _, ok := use.(*ssa.DebugRef); ok || reported[use] {
+						continue
+					}
+					if _, ok := use.(*ssa.Phi); ok {
+						continue // the merged value's own uses are examined
+					}
+					for _, adv := range advances {
+						if use != adv && instrPathAvoiding(call, adv, call) && instrPathAvoiding(adv, use, call) {
+							reported[use] = true
+							hits = append(hits, aliasHit{call, use, "still used after a later read on the same buffer (" + callName(adv.(ssa.CallInstruction)) + " at " + c.pos(adv.Pos()) + ")"})
+							break
+						}
+					}
+				}
+			}
 		})
 	}
 	return
@@ -953,4 +983,97 @@ func keysOf(m map[string]bool) []string {
 	}
 	sort.Strings(out)
 	return out
+}
+
+// rulesNoBufferedPkg (A6-SCHED for one package): no function of the package consults bufio.Reader.Buffered.
+func rulesNoBufferedPkg(c *Ctx, r *Report, rel string) {
+	var funcs []*ssa.Function
+	for _, f := range formatFuncs(c) {
+		if funcPkgPath(f) == modPath+"/"+rel {
+			funcs = append(funcs, f)
+		}
+	}
+	_, buffered := detectDirectReads(c, funcs)
+	pos := ""
+	if len(buffered) > 0 {
+		pos = c.pos(buffered[0].Pos())
+	}
+	r.check(len(buffered) == 0, "A6-SCHED", rel, "no Buffered()", pos,
+		fmt.Sprintf("none of the %d functions of the package consults bufio.Reader.Buffered: whether more input follows is decided by reading, not by what happens to be buffered", len(funcs)),
+		fmt.Sprintf("%d calls of bufio.Reader.Buffered: how much is buffered depends on how the stream was chunked, so records that follow in a later chunk are lost", len(buffered)))
+	if len(funcs) == 0 {
+		r.undecided("A6-SCHED", rel, "anchor", "", "package has no functions")
+	}
+}
+
+// instrPathAvoiding: some CFG path leads from just after `from` to `to` without executing `avoid`.
+func instrPathAvoiding(from, to, avoid ssa.Instruction) bool {
+	idxOf := func(in ssa.Instruction) int {
+		for i, x := range in.Block().Instrs {
+			if x == in {
+				return i
+			}
+		}
+		return -1
+	}
+	type item struct {
+		b *ssa.BasicBlock
+		i int
+	}
+	seen := map[*ssa.BasicBlock]bool{}
+	work := []item{{from.Block(), idxOf(from) + 1}}
+	for len(work) > 0 {
+		it := work[len(work)-1]
+		work = work[:len(work)-1]
+		stopped := false
+		for k := it.i; k < len(it.b.Instrs); k++ {
+			in := it.b.Instrs[k]
+			if in == to {
+				return true
+			}
+			if in == avoid {
+				stopped = true
+				break
+			}
+		}
+		if stopped {
+			continue
+		}
+		for _, su := range it.b.Succs {
+			if !seen[su] {
+				seen[su] = true
+				work = append(work, item{su, 0})
+			}
+		}
+	}
+	return false
+}
+
+// advancesBuffer: the call moves the bufio buffer that a view of the given kind points into (directly, or
+// inside a module helper up to two calls deep).
+func advancesBuffer(c *Ctx, call ssa.CallInstruction, scanner bool, depth int) bool {
+	g := call.Common().StaticCallee()
+	if g == nil {
+		return false
+	}
+	if scanner {
+		if methIs(g, "bufio", "Scanner", "Scan") {
+			return true
+		}
+	} else if recv := g.Signature.Recv(); recv != nil && strings.HasSuffix(recv.Type().String(), "bufio.Reader") {
+		switch g.Name() {
+		case "Read", "ReadByte", "ReadBytes", "ReadLine", "ReadRune", "ReadSlice", "ReadString", "Discard", "Peek", "WriteTo", "Reset":
+			return true
+		}
+	}
+	if depth < 2 && g.Blocks != nil && c.inModule(g) {
+		found := false
+		instrs(g, func(in ssa.Instruction) {
+			if ci, ok := in.(ssa.CallInstruction); ok && advancesBuffer(c, ci, scanner, depth+1) {
+				found = true
+			}
+		})
+		return found
+	}
+	return false
 }
